@@ -5,6 +5,11 @@ cd "$(dirname "$0")"
 if [ -f tools/extract_facts.py ]; then
   /venv/bin/python tools/extract_facts.py "${VERIF_REPO:-/repo}" coq/theories/Extracted.v
 fi
+# identify_utils.py -> IdentifyGen{Conf,IM,MB}.v (fail closed: a file that cannot be generated is replaced by a stub that does not compile)
+/venv/bin/python tools/translate_identify.py "${VERIF_REPO:-/repo}" coq/theories || true
+for f in IdentifyGenConf IdentifyGenIM IdentifyGenMB; do
+  [ -f coq/theories/$f.v ] || echo "(* the translator failed closed on this part of identify_utils.py *) Definition translator_failed_closed : True := 0." > coq/theories/$f.v
+done
 cd coq
 coq_makefile -f _CoqProject -o Makefile >/dev/null
 timeout 3000 make -k -j"$(nproc)" 2>&1 | tail -5
